@@ -97,6 +97,7 @@ def cond_tagset(T, fn, want_branch):
         if on_then == on_else:
             continue
         recv = None
+        env0 = None
         for x, _ in hir_walk(e['cond']):
             if x['k'] == 'mcall' and x['m'].startswith('typecheck::TagWrap::is_'):
                 r = x['recv']
@@ -104,11 +105,16 @@ def cond_tagset(T, fn, want_branch):
                     r = r['e']
                 if r['k'] == 'path' and r['p'].get('res') == 'local':
                     recv = r['p']['hid']
+                    env0 = {recv: 'TRACKED'}
+                elif r['k'] == 'call' and P.name_is(callee_def(r), 'get_tag'):
+                    # the predicate is applied to get_tag(..) directly, without a local in between
+                    recv = 'call'
+                    env0 = {'__tracked_call__': r}
         if recv is None:
             continue
         res = {}
         for t in T.tags:
-            v = T.it.truth(e['cond'], t, {recv: 'TRACKED'})
+            v = T.it.truth(e['cond'], t, dict(env0))
             if on_else and v in (TRUE, FALSE):
                 v = FALSE if v == TRUE else TRUE
             res[t] = v
@@ -474,7 +480,7 @@ def r9_check_total(c, facts, rule='C01.R9'):
             src = ctx.local_src(subj)
             if src and src[0] == 'let':
                 subj = src[1]
-            if subj['k'] == 'call' and (callee_def(subj) or '').endswith('get_tag'):
+            if subj['k'] == 'call' and P.name_is(callee_def(subj), 'get_tag'):
                 subj = subj['args'][0]
             chain = _origin_chain(ctx, subj)
             conds = []
